@@ -1684,6 +1684,62 @@ fn kernel_line(t: &[&str]) -> String {
       });
       if kept { "kept".to_string() } else { "elim".to_string() }
     }
+    "algopt" if t.len() == 10 => {
+      // `algopt G i0 step bound LIT NONIV DERIVED STMTS BRK`: the loop is built with exactly these features;
+      // answer: did the real loop pass replace it by straight-line code?
+      let inv = match t[1] {
+        "lt" => "ge",
+        "le" => "gt",
+        "gt" => "le",
+        _ => "lt",
+      };
+      let start = if t[5] == "1" { t[2].to_string() } else { "p0".to_string() };
+      let mut lvs = format!("i {start} ni k 0 nk");
+      let mut nlv = 2;
+      let mut body = String::new();
+      if t[6] != "0" {
+        lvs.push_str(" x p1 x");
+        nlv += 1;
+      }
+      if t[7] != "0" {
+        body.push_str("bin d mul i 3 ");
+      }
+      if t[8] != "0" {
+        body.push_str("call print 1 p1 _ ");
+      }
+      let brk = match t[9] {
+        "counter" => "i",
+        "lit" => "7",
+        "giv" => "k",
+        "outer" => "p1",
+        "none" => "0",
+        _ => {
+          if t[6] != "0" {
+            "x"
+          } else if t[7] != "0" {
+            "d"
+          } else {
+            "k"
+          }
+        }
+      };
+      let bc = if t[9] == "none" { "_" } else { "r" };
+      let ret = if t[9] == "none" { "p1" } else { "r" };
+      let text = format!(
+        "fn f0 2 while {nlv} {lvs} {{ bin cc {inv} i {} sif cc 0 {{ brk {brk} }} {body}bin nk add k 5 bin ni add i {} }} {bc} ret {ret} end",
+        t[4], t[3]
+      );
+      let mut heap = Heap::new();
+      let before = match parse_program(&mut heap, &text) {
+        Ok(f) => f,
+        Err(e) => return format!("bad-program {e}"),
+      };
+      let after = match apply_pass(&mut heap, &before, "loop", 31) {
+        Ok(f) => f,
+        Err(_) => return "panic".to_string(),
+      };
+      if after[0].body.iter().any(|s| s.as_while().is_some()) { "kept".to_string() } else { "fired".to_string() }
+    }
     "lvnw" => {
       // `lvnw <prefix> ~ N (name init loopvalue)*N | <body>` through the real local_value_numbering
       let mut heap = Heap::new();
